@@ -211,6 +211,76 @@ def bec2_damages(cm, text, binary):
         yield ("key", i, text, k2)
 
 
+# BEC2 files with two and three OPENABLE authentication blocks, read with all decryptors.  The content
+# compared includes the authentication blocks and the session key.
+
+CSC = bytes(range(1, 9))
+ECC_SECRET = 0x1F2E3D4C5B6A79880796A5B4C3D2E1F00112233445566778899AABBCCDDEEFF
+
+
+def multi_decryptors():
+    from bec2format import SoftwareCustKeyEncryptor, ConfigSecurityCodeEncryptor
+    from bec2format.bec2file import EccDecryptor
+    import register_crypto_plugin as plug
+    from ecdsa import SigningKey, NIST256p
+    priv = plug.PrivateEccKeyProxy(SigningKey.from_secret_exponent(ECC_SECRET, curve=NIST256p))
+    return {"cust": SoftwareCustKeyEncryptor(CRYPTO_KEY, CUST_KEY, 0), "upd": ConfigSecurityCodeEncryptor(CSC),
+            "ecc": EccDecryptor(1, priv)}
+
+
+MULTI_SETUPS = [("cust", "upd"), ("upd", "cust"), ("cust", "ecc", "upd")]
+
+
+def multi_blocks(setup):
+    from bec2format.bec2file import InitCustKeyAuthBlock, UpdateAuthBlock, InitEccAuthBlock
+    mk = {"cust": InitCustKeyAuthBlock, "upd": lambda: UpdateAuthBlock(CSC, 3), "ecc": lambda: InitEccAuthBlock(1)}
+    return [mk[b]() for b in setup]
+
+
+def multi_written(cm, comps, key, setup):
+    from bec2format import Bec2File
+    decs = multi_decryptors()
+
+    def go():
+        s = io.StringIO()
+        Bec2File(B.build(cm, comps), multi_blocks(setup), key).write_file(s, [decs[b] for b in setup])
+        return s.getvalue()
+    w = run_impl(go)
+    if w[0] != "ok":
+        return None
+    return w[1], binary_of_text(w[1])
+
+
+def multi_read(text, setup):
+    from bec2format import Bec2File
+    decs = multi_decryptors()
+    return run_impl(lambda: Bec2File.read_file(io.StringIO(text), [decs[b] for b in setup], True))
+
+
+def multi_view(f):
+    """session key, authentication blocks (kind, key selector, security code, version, raw bytes of unknown
+    ones, in file order) and the BF3 content"""
+    ab = [(tag, type(b).__name__, getattr(b, "key_selector", None), getattr(b, "config_security_code", None),
+           getattr(b, "version", None), getattr(b, "binary_value", None)) for tag, b in f.auth_blocks.items()]
+    return (bytes(f.session_key), ab, B.file_view(f.bf3file))
+
+
+def header_regions(binary, setup):
+    """position -> region name for the BEC2 header of an authentic file"""
+    reg = {i: "signature" for i in range(5)}
+    p = 5
+    for b in setup:
+        ln = binary[p + 1]
+        reg[p], reg[p + 1] = "tlv-tag", "tlv-len"
+        for i in range(p + 2, p + 2 + ln):
+            reg[i] = "value"
+        if b == "ecc":
+            reg[p + 2] = "ecc-selector"
+        p += 2 + ln
+    reg[p] = reg[p + 1] = "end-marker"
+    return reg, p + 2
+
+
 # ---------------------------------------------------------------------------
 # crafted stream: an independent serialiser over a field list, MACs recomputed
 
@@ -486,6 +556,56 @@ def search(ctx):
             if why:
                 ctx.fail("damage-accepted", fail_record("bec2", cm, comps, key, kind, param, t2, ck, with_ck),
                          "%s %r: %s" % (kind, param, why))
+    # BEC2 with two and three openable blocks, all decryptors supplied (every run)
+    for setup in MULTI_SETUPS:
+        cm, comps = {"Creator": "c04"}, [({0xC3: b"\x02"}, nz(r, 9) + b"\0", None, False)]
+        key = bytes(r.randrange(256) for _ in range(16))
+        wr = multi_written(cm, comps, key, setup)
+        if wr is None:
+            ctx.broken("search: cannot write a BEC2 file with blocks %r" % (setup,), "")
+            continue
+        text, binary = wr
+        base = multi_read(text, setup)
+        ctx.case(("authentic-bec2-multi", setup, text), trivial=False)
+        kinds = {"cust": "InitCustKeyAuthBlock", "upd": "UpdateAuthBlock", "ecc": "InitEccAuthBlock"}
+        if base[0] != "ok" or multi_view(base[1])[0] != key or multi_view(base[1])[2] != content_of(cm, comps) or \
+                [a[1] for a in multi_view(base[1])[1]] != [kinds[b] for b in setup]:
+            ctx.fail("damage-accepted", {"fmt": "bec2-multi", "setup": list(setup), "damage": "none", "text": text, "key": key},
+                     "the undamaged multi-block BEC2 file does not read back as written: %r" % (base,))
+            continue
+        want = multi_view(base[1])
+        reg, hdr_end = header_regions(binary, setup)
+        ctx.dist["bec2-multi:%s" % "+".join(setup)] += 1
+        pts = []
+        for pos in range(len(binary)):
+            ys = replacements(binary[pos])
+            if pos >= hdr_end and ctx.quick() and "ecc" in setup:
+                ys = ys[:3]
+            for y in ys:
+                pts.append(("byte", (pos, y), B.text_of_binary(cm, binary[:pos] + bytes([y]) + binary[pos + 1:])))
+        pts += [("binprefix", n, B.text_of_binary(cm, binary[:n])) for n in range(len(binary))]
+        pts += [("suffix", sfx, text + sfx) for sfx in SUFFIXES]
+        if not ctx.quick() or "ecc" not in setup:
+            pts += [("textprefix", n, text[:n]) for n in range(len(text))]
+        for kind, param, t2 in pts:
+            res = multi_read(t2, setup)
+            ctx.case(("bec2-multi", setup, kind, param, text), trivial=False)
+            if res[0] == "err":
+                errs["bec2-multi:%s->%s" % (kind, res[1])] += 1
+                continue
+            got = multi_view(res[1])
+            errs["bec2-multi:%s->%s" % (kind, "original" if got == want else "DIFFERENT")] += 1
+            if got == want:
+                continue
+            region = reg.get(param[0], "body") if kind == "byte" else kind
+            only_blocks = (got[0], got[2]) == (want[0], want[2])
+            ctx.fail("damage-accepted-authblocks" if only_blocks else "damage-accepted",
+                     {"fmt": "bec2-multi", "setup": list(setup), "region": region, "damage": kind, "param": repr(param),
+                      "text": t2, "key": key, "want_blocks": repr(want[1]), "got_blocks": repr(got[1])},
+                     "BEC2 %s, %s %r (%s): accepted with %s: want %r got %r" % (
+                         "+".join(setup), kind, param, region,
+                         "different authentication blocks (same session key and BF3 content)" if only_blocks else "different content",
+                         want if not only_blocks else want[1], got if not only_blocks else got[1]))
     ctx.extra["partial"] = PARTIAL
     ctx.extra["rule"] = (
         "authentic files: 6 boundary shapes (empty directory, trailing 0x00 runs, last byte with non-zero high nibble, 16-aligned and "
@@ -495,7 +615,8 @@ def search(ctx):
         "keys {zero, random, zero-tailed}); damage = every byte position x {8 bit flips, 00, FF, +1}, every proper prefix of the binary "
         "(re-printed as text) and of the text (character by character), suffixes %r, every single-bit change of the key (BEC2: of the "
         "crypto key that unwraps the session key); search = predicate 'error or exactly the original content' on the real plug-in for BF3 "
-        "and BEC2 (customer-key auth block); correspondence = model read_file == implementation at the same damage points under the toy "
+        "and BEC2 (customer-key auth block; plus files with 2 and 3 openable auth blocks cust+upd, upd+cust, cust+ecc+upd read with all "
+        "decryptors, content = session key + auth blocks + BF3 content, every header byte damaged); correspondence = model read_file == implementation at the same damage points under the toy "
         "cipher + crafted files violating one reader check at a time with recomputed MACs; non-trivial = file has a component; distinct by "
         "(file, damage point)" % (SUFFIXES,))
 
@@ -520,6 +641,20 @@ def replay(ctx, data):
         d = f["data"]
         print(f["kind"], f["detail"][:400])
         try:
+            if d["fmt"] == "bec2-multi":
+                setup = tuple(d["setup"])
+                res = multi_read(d["text"], setup)
+                print(" damaged text:", repr(d["text"])[:400])
+                if res[0] == "err":
+                    print(" replay on the implementation: error", res[1], "-> predicate holds")
+                    continue
+                got = multi_view(res[1])
+                print(" replay on the implementation: accepted; session key %s; blocks %r" % (got[0].hex(), got[1]))
+                print(" blocks of the undamaged file:", d.get("want_blocks"))
+                bad = repr(got[1]) != d.get("want_blocks") or got[0].hex() != d["key"]["hex"]
+                print(" predicate:", "VIOLATED (accepted, not the original content)" if bad else "holds")
+                rc |= bad
+                continue
             cm = d["comments"]
             comps = [({int(k): bytes.fromhex(v["hex"]) for k, v in c[0].items()}, bytes.fromhex(c[1]["hex"]), c[2], c[3])
                      for c in d["comps"]]
